@@ -84,6 +84,20 @@ theorem subnormal_norm (f : Nat) (hf0 : f ≠ 0) (hf : f < 2 ^ 23) :
   · rw [← e1]; exact Nat.mul_le_mul_right _ hlo
   · rw [← e2]; exact Nat.mul_lt_mul_of_pos_right hhi hP
 
+theorem norm53 (n : Nat) (hn0 : n ≠ 0) (hn : n < 2 ^ 53) :
+    Nat.log2 n ≤ 52 ∧ 2 ^ 52 ≤ n * 2 ^ (52 - Nat.log2 n) ∧ n * 2 ^ (52 - Nat.log2 n) < 2 ^ 53 := by
+  have hk : Nat.log2 n < 53 := (Nat.log2_lt hn0).2 hn
+  have hlo : 2 ^ Nat.log2 n ≤ n := Nat.log2_self_le hn0
+  have hhi : n < 2 ^ (Nat.log2 n + 1) := Nat.lt_log2_self
+  have hP : 0 < 2 ^ (52 - Nat.log2 n) := Nat.two_pow_pos _
+  have e1 : 2 ^ Nat.log2 n * 2 ^ (52 - Nat.log2 n) = 2 ^ 52 := by
+    rw [← Nat.pow_add]; congr 1; omega
+  have e2 : 2 ^ (Nat.log2 n + 1) * 2 ^ (52 - Nat.log2 n) = 2 ^ 53 := by
+    rw [← Nat.pow_add]; congr 1; omega
+  refine ⟨by omega, ?_, ?_⟩
+  · rw [← e1]; exact Nat.mul_le_mul_right _ hlo
+  · rw [← e2]; exact Nat.mul_lt_mul_of_pos_right hhi hP
+
 /-! ## magnitudes stay inside their fields -/
 
 theorem widenMag_inf : widenMag 255 0 = 2047 * 2 ^ 52 + 0 := by simp [widenMag, inf64]
@@ -356,5 +370,113 @@ theorem narrowMag_mono (e1 m1 e2 m2 : Nat) (hm1 : m1 < 2 ^ 52) (hm2 : m2 < 2 ^ 5
     · exact narrowMag_finite_le e1 m1 hlt hm1
     · have : m1 = 0 := by omega
       subst this; subst heq; rw [narrowMag_inf]; omega
+
+/-! ## the magnitude bits order like the values -/
+
+theorem scaledMag64_lt (e1 m1 e2 m2 : Nat) (hm1 : m1 < 2 ^ 52) (hm2 : m2 < 2 ^ 52)
+    (h : e1 < e2 ∨ (e1 = e2 ∧ m1 < m2)) : scaledMag64 e1 m1 < scaledMag64 e2 m2 := by
+  unfold scaledMag64
+  rcases h with hlt | ⟨heq, hm⟩
+  · have h2 : ¬ e2 = 0 := by omega
+    rw [if_neg h2]
+    have hP2 : 0 < 2 ^ (e2 - 1) := Nat.two_pow_pos _
+    have hB : 2 ^ 52 * 2 ^ (e2 - 1) ≤ (2 ^ 52 + m2) * 2 ^ (e2 - 1) := Nat.mul_le_mul_right _ (by omega)
+    by_cases h1 : e1 = 0
+    · rw [if_pos h1]
+      generalize 2 ^ (e2 - 1) = P2 at *
+      generalize (2 ^ 52 + m2) * P2 = B at *
+      omega
+    · rw [if_neg h1]
+      have hP1 : 0 < 2 ^ (e1 - 1) := Nat.two_pow_pos _
+      have hA : (2 ^ 52 + m1) * 2 ^ (e1 - 1) < 2 ^ 53 * 2 ^ (e1 - 1) :=
+        Nat.mul_lt_mul_of_pos_right (by omega) hP1
+      have hPP : 2 ^ (e1 - 1) * 2 ≤ 2 ^ (e2 - 1) := by
+        rw [← Nat.pow_succ]; exact Nat.pow_le_pow_right (by decide) (by omega)
+      generalize 2 ^ (e2 - 1) = P2 at *
+      generalize 2 ^ (e1 - 1) = P1 at *
+      generalize (2 ^ 52 + m2) * P2 = B at *
+      generalize (2 ^ 52 + m1) * P1 = A at *
+      omega
+  · subst heq
+    by_cases h1 : e1 = 0
+    · rw [if_pos h1, if_pos h1]; exact hm
+    · rw [if_neg h1, if_neg h1]
+      exact Nat.mul_lt_mul_of_pos_right (by omega) (Nat.two_pow_pos _)
+
+set_option exponentiation.threshold 1100 in
+theorem scaledMag32_lt (E1 f1 E2 f2 : Nat) (hf1 : f1 < 2 ^ 23) (hf2 : f2 < 2 ^ 23)
+    (h : E1 < E2 ∨ (E1 = E2 ∧ f1 < f2)) : scaledMag32 E1 f1 < scaledMag32 E2 f2 := by
+  unfold scaledMag32
+  rcases h with hlt | ⟨heq, hm⟩
+  · have h2 : ¬ E2 = 0 := by omega
+    rw [if_neg h2]
+    have hB : 2 ^ 23 * 2 ^ (E2 + 924) ≤ (2 ^ 23 + f2) * 2 ^ (E2 + 924) := Nat.mul_le_mul_right _ (by omega)
+    by_cases h1 : E1 = 0
+    · rw [if_pos h1]
+      have hP1 : 0 < 2 ^ 925 := Nat.two_pow_pos _
+      have hA : f1 * 2 ^ 925 < 2 ^ 23 * 2 ^ 925 := Nat.mul_lt_mul_of_pos_right hf1 hP1
+      have hPP : 2 ^ 925 ≤ 2 ^ (E2 + 924) := Nat.pow_le_pow_right (by decide) (by omega)
+      generalize 2 ^ (E2 + 924) = P2 at *
+      generalize 2 ^ 925 = P1 at *
+      generalize (2 ^ 23 + f2) * P2 = B at *
+      generalize f1 * P1 = A at *
+      omega
+    · rw [if_neg h1]
+      have hP1 : 0 < 2 ^ (E1 + 924) := Nat.two_pow_pos _
+      have hA : (2 ^ 23 + f1) * 2 ^ (E1 + 924) < 2 ^ 24 * 2 ^ (E1 + 924) :=
+        Nat.mul_lt_mul_of_pos_right (by omega) hP1
+      have hPP : 2 ^ (E1 + 924) * 2 ≤ 2 ^ (E2 + 924) := by
+        rw [← Nat.pow_succ]; exact Nat.pow_le_pow_right (by decide) (by omega)
+      generalize 2 ^ (E2 + 924) = P2 at *
+      generalize 2 ^ (E1 + 924) = P1 at *
+      generalize (2 ^ 23 + f2) * P2 = B at *
+      generalize (2 ^ 23 + f1) * P1 = A at *
+      omega
+  · subst heq
+    by_cases h1 : E1 = 0
+    · rw [if_pos h1, if_pos h1]
+      exact Nat.mul_lt_mul_of_pos_right hm (Nat.two_pow_pos _)
+    · rw [if_neg h1, if_neg h1]
+      exact Nat.mul_lt_mul_of_pos_right (by omega) (Nat.two_pow_pos _)
+
+/-- Order of magnitudes (exponent and fraction as one number) = order of |value|. -/
+theorem scaledMag64_le_iff (e1 m1 e2 m2 : Nat) (hm1 : m1 < 2 ^ 52) (hm2 : m2 < 2 ^ 52) :
+    scaledMag64 e1 m1 ≤ scaledMag64 e2 m2 ↔ e1 * 2 ^ 52 + m1 ≤ e2 * 2 ^ 52 + m2 := by
+  constructor
+  · intro h
+    apply Nat.le_of_not_lt
+    intro hlt
+    have := scaledMag64_lt e2 m2 e1 m1 hm2 hm1 (by omega)
+    omega
+  · intro h
+    by_cases heq : e1 = e2 ∧ m1 = m2
+    · rw [heq.1, heq.2]; exact Nat.le_refl _
+    · exact Nat.le_of_lt (scaledMag64_lt e1 m1 e2 m2 hm1 hm2 (by omega))
+
+theorem scaledMag32_le_iff (E1 f1 E2 f2 : Nat) (hf1 : f1 < 2 ^ 23) (hf2 : f2 < 2 ^ 23) :
+    scaledMag32 E1 f1 ≤ scaledMag32 E2 f2 ↔ E1 * 2 ^ 23 + f1 ≤ E2 * 2 ^ 23 + f2 := by
+  constructor
+  · intro h
+    apply Nat.le_of_not_lt
+    intro hlt
+    have := scaledMag32_lt E2 f2 E1 f1 hf2 hf1 (by omega)
+    omega
+  · intro h
+    by_cases heq : E1 = E2 ∧ f1 = f2
+    · rw [heq.1, heq.2]; exact Nat.le_refl _
+    · exact Nat.le_of_lt (scaledMag32_lt E1 f1 E2 f2 hf1 hf2 (by omega))
+
+theorem scaledMag64_zero_iff (e m : Nat) (hm : m < 2 ^ 52) : scaledMag64 e m = 0 ↔ e * 2 ^ 52 + m = 0 := by
+  have h := scaledMag64_le_iff e m 0 0 hm (by omega)
+  have z : scaledMag64 0 0 = 0 := by simp [scaledMag64]
+  rw [z] at h
+  omega
+
+set_option exponentiation.threshold 1100 in
+theorem scaledMag32_zero_iff (E f : Nat) (hf : f < 2 ^ 23) : scaledMag32 E f = 0 ↔ E * 2 ^ 23 + f = 0 := by
+  have h := scaledMag32_le_iff E f 0 0 hf (by omega)
+  have z : scaledMag32 0 0 = 0 := by unfold scaledMag32; rw [if_pos rfl]; try exact Nat.zero_mul _
+  rw [z] at h
+  omega
 
 end CffiVerif.Ieee
